@@ -30,6 +30,7 @@ def run(ctx: Ctx):
     coordinate_typing(ctx)
     pairing(ctx)
     index_space_zip(ctx)
+    display_translation(ctx)
     duplicates(ctx)
     rendering_typestate(ctx)
     shape(ctx)
@@ -374,6 +375,13 @@ def _space(e: ast.AST, env: Dict[str, str]) -> Optional[str]:
         a, b = _space(e.left, env), _space(e.right, env)
         return a or b
     return None
+
+
+def display_translation(ctx: Ctx):
+    """A display column index selects a column of UNASSEMBLED blocks only after order[display_idx]."""
+    from . import c13
+
+    c13.translation(ctx)
 
 
 # --------------------------------------------------------------------------- 6
